@@ -2,6 +2,7 @@
   C17 — The spilling cacher adapter never loses an entry.
 -/
 import SV.Misc.AdapterProofs
+import SV.Misc.AdapterMore
 namespace SV.Props.C17
 open SV SV.Adapter
 
@@ -20,5 +21,28 @@ theorem spills_before_dropping (V : Bytes → Bytes) (S : List Bytes) (a : A) (k
 /-- F11 (pre-repair): the silent eviction of the LRU made the adapter lose an entry -/
 theorem legacy_F11 : ∃ (a : A) (k v : Bytes) (size : Int) (e : LRU.Entry),
     e ∈ a.mem.entries ∧ e.key ≠ k ∧ (a.put LRU.Variant.legacy k v size).1.has e.key = false := legacy_loses_entry
+
+/-- the same through ALL the adapter's entry points: histories of Put, HasOrAdd (= Has, then Put when absent), Get, Has,
+    Peek and Remove — every key inserted by a Put or HasOrAdd and not removed since is reported by Has and returned by
+    Get with its value -/
+theorem never_loses_all_entry_points (V : Bytes → Bytes) (hv : ∀ x, V x ≠ []) (cap : Nat) (maxBytes : Int) (ops : List Op2)
+    (hs : ∀ op ∈ ops, op.sizeOk) (k : Bytes) (hk : k ∈ liveKeys ops) :
+    let a := ops.foldl (A.step2 V) ⟨LRU.Cap.init cap maxBytes, []⟩
+    a.has k = true ∧ (a.get k).2 = some (V k) := run_never_loses2 V hv cap maxBytes ops hs k hk
+/-- `liveKeys` is what it should be: inserted by a put/hoa that no later `rm` of the same key follows -/
+theorem live_keys_characterised (ops : List Op2) (k : Bytes) :
+    k ∈ liveKeys ops ↔ ∃ pre op post, ops = pre ++ op :: post ∧ op.inserts k = true ∧ Op2.rm k ∉ post :=
+  mem_liveKeys_iff k ops
+/-- HasOrAdd is Has followed by Put-when-absent, and its insertion spills like Put does -/
+theorem hasOrAdd_is_has_then_put (vr : LRU.Variant) (a : A) (k v : Bytes) (size : Int) :
+    (a.hasOrAdd vr k v size).2.1 = a.has k ∧
+    (a.has k = true → a.hasOrAdd vr k v size = (a, true, false)) ∧
+    (a.has k = false → a.hasOrAdd vr k v size = ((a.put vr k v size).1, false, (a.put vr k v size).2)) :=
+  hasOrAdd_spec vr a k v size
+theorem hasOrAdd_spills_before_dropping (V : Bytes → Bytes) (S : List Bytes) (a : A) (k : Bytes) (size : Int)
+    (h : AInv V S a) (hv : ∀ x, V x ≠ []) :
+    let r := a.hasOrAdd LRU.Variant.current k (V k) size
+    (∀ e ∈ a.mem.entries, e.key ≠ k → r.1.mem.has e.key = false → alookup e.key r.1.db = some e.val) ∧
+    (r.2.2 = true ↔ ∃ e ∈ a.mem.entries, e.key ≠ k ∧ r.1.mem.has e.key = false) := hasOrAdd_spills V S a k size h hv
 
 end SV.Props.C17
